@@ -137,8 +137,11 @@ def report(rep, which, entry, b, what):
             bad.append(f'{k} accepts={v.get("ok")} grammar={want}')
         elif want and which == 'bearer' and bytes.fromhex(v['as_str']) != b:
             bad.append(f'{k} renders {bytes.fromhex(v["as_str"])!r}')
-        elif want and which == 'rid' and (v['as_str'].encode() != b or ('ri.%s.%s.%s.%s' % (v['service'], v['instance'], v['type'], v['locator'])).encode() != b):
-            bad.append(f'{k} components do not re-join: {v}')
+        elif want and which == 'rid':
+            g = re.fullmatch(rb'ri\.([a-z][a-z0-9\-]*)\.((?:[a-z0-9][a-z0-9\-]*)?)\.([a-z][a-z0-9\-]*)\.([a-zA-Z0-9_\-\.]+)', b)
+            comp = tuple(x.decode() for x in g.groups())
+            if v['as_str'].encode() != b or (v['service'], v['instance'], v['type'], v['locator']) != comp:
+                bad.append(f'{k} components {(v["service"], v["instance"], v["type"], v["locator"])} are not the grammar\'s groups {comp}')
     if bad and res['release'] == r:
         rep.violation(f'C16:{which}:{entry}', f'{which} input {b!r}: {what}; native: {"; ".join(bad)}', {'input_hex': b.hex(), 'native': r})
     else:
